@@ -23,6 +23,8 @@ pub enum Place {
     Plain,
     GuardEnd,
     GuardStart,
+    /// heap block of exactly a + len bytes (valgrind memcheck)
+    Heap,
 }
 
 impl Place {
@@ -31,6 +33,7 @@ impl Place {
             Place::Plain => "plain",
             Place::GuardEnd => "guard-end",
             Place::GuardStart => "guard-start",
+            Place::Heap => "heap",
         }
     }
     pub fn parse(s: &str) -> Place {
@@ -38,6 +41,7 @@ impl Place {
             "plain" => Place::Plain,
             "guard-end" => Place::GuardEnd,
             "guard-start" => Place::GuardStart,
+            "heap" => Place::Heap,
             _ => panic!("place"),
         }
     }
@@ -48,11 +52,12 @@ pub struct Ctx {
     guard: Arena,
     pre: Vec<u8>,
     post: Vec<u8>,
+    heap: Vec<u8>,
 }
 
 impl Ctx {
     pub fn new() -> Ctx {
-        Ctx { plain: Arena::plain(8), guard: Arena::guarded(2), pre: vec![], post: vec![] }
+        Ctx { plain: Arena::plain(8), guard: Arena::guarded(2), pre: vec![], post: vec![], heap: vec![] }
     }
 
     /// Neighbour bytes: copies of the needle on both sides, so that a read
@@ -82,6 +87,15 @@ impl Ctx {
                 self.guard.place(off, data, &self.pre, &self.post)
             }
             Place::GuardStart => self.guard.place(0, data, &self.pre, &self.post),
+            Place::Heap => {
+                let a = a % 4;
+                let mut v: Vec<u8> = Vec::with_capacity(a + data.len());
+                v.extend(std::iter::repeat(b'a').take(a));
+                v.extend_from_slice(data);
+                assert_eq!(v.capacity(), a + data.len());
+                self.heap = v;
+                &self.heap[a..]
+            }
         }
     }
 }
